@@ -1,6 +1,6 @@
 (* What a sequential run of calls (the right-hand side of cache_linearizable) returns: if the
-   clock advances are non-negative and the stored IDs pairwise distinct, exactly the outcomes of
-   the abstract specification for the history of those calls. *)
+   clock advances are non-negative, exactly the outcomes of the abstract specification for the
+   history of those calls. *)
 From Coq Require Import ZArith Bool Lia List.
 From TV Require Import Base.Prelude Base.C18_Lib Model.C18_Cache Spec.C18_CacheSpec
      Proofs.C18_Cache Proofs.C18_Lin.
@@ -42,22 +42,14 @@ Qed.
 Lemma monotone_from_monotone t h : monotone_from t h -> monotone h.
 Proof. destruct h as [|[t' o] h]; [auto|]. cbn [monotone_from monotone]. tauto. Qed.
 
-Lemma hist_of_put_ids : forall cs clk, put_ids (hist_of clk cs) = put_ids (map (fun c : ccall => (0, fst c)) cs).
-Proof.
-  induction cs as [|[o d] cs IH]; intros clk; [reflexivity|].
-  cbn [hist_of map fst put_ids]. destruct o; rewrite ?(IH (clk + d)); reflexivity.
-Qed.
-
 Lemma serial_calls_refine_spec_all : forall n maxAge t0 cs,
   1 <= n -> Forall (fun c : ccall => 0 <= snd c) cs ->
-  NoDup (put_ids (map (fun c : ccall => (0, fst c)) cs)) ->
   snd (mfold (init_world n maxAge, t0) cs) = spec_outcomes n maxAge (hist_of t0 cs) /\
-  monotone (hist_of t0 cs) /\ distinct_puts (hist_of t0 cs).
+  monotone (hist_of t0 cs).
 Proof.
-  intros n maxAge t0 cs Hn Hd Hnd.
+  intros n maxAge t0 cs Hn Hd.
   assert (monotone (hist_of t0 cs)) as Hm by (eapply monotone_from_monotone, hist_of_monotone; exact Hd).
-  assert (distinct_puts (hist_of t0 cs)) as Hp by (unfold distinct_puts; rewrite hist_of_put_ids; exact Hnd).
-  split; [|split; assumption].
+  split; [|exact Hm].
   rewrite (proj1 (mfold_exec cs (init_world n maxAge) t0)).
-  exact (cache_refines_spec_distinct n maxAge (hist_of t0 cs) Hn Hm Hp).
+  exact (cache_refines_spec_all n maxAge (hist_of t0 cs) Hn Hm).
 Qed.
